@@ -106,7 +106,7 @@ DECL_REAL(time_t, time, time_t *)
 namespace
 {
 constexpr int MAXT = 32;
-constexpr int MAXOPT = 12;
+constexpr int MAXOPT = 20;
 constexpr int MAXPOINTS = 1 << 16;
 constexpr int MAXDEV = 100;
 
